@@ -136,11 +136,21 @@ func (p *c05Pkg) strList(args []ast.Expr) ([]string, bool) {
 			if !ok {
 				return nil, false
 			}
-			cl, ok := v.(*ast.CompositeLit)
-			if !ok {
-				return nil, false
+			var sub []string
+			switch vv := v.(type) {
+			case *ast.CompositeLit:
+				sub, ok = p.strList(vv.Elts)
+			case *ast.CallExpr: // append(otherKey, "x", …)
+				if id, isID := vv.Fun.(*ast.Ident); isID && id.Name == "append" {
+					sub, ok = p.strList(vv.Args)
+				} else {
+					ok = false
+				}
+			case *ast.BasicLit:
+				sub, ok = p.strList([]ast.Expr{vv})
+			default:
+				ok = false
 			}
-			sub, ok := p.strList(cl.Elts)
 			if !ok {
 				return nil, false
 			}
@@ -569,6 +579,92 @@ func extractC05() *lean {
 			l.def("vciPreAuthRefType", "String", fmt.Sprintf("%q", rt), rt)
 		}
 	}
+
+	// ---- the key space of the session database: EVERY store of the packages that use it (prefix segments), and the
+	// character paths "seg<sep>seg<sep>" the full keys of a store start with (getFullKey joins prefixes and key with the
+	// separator and does not escape the key)
+	var allPrefixes [][]string
+	seenPrefix := map[string]bool{}
+	var refTypes []string
+	for name, v := range vci.consts {
+		if strings.HasSuffix(name, "RefType") {
+			if b, ok := v.(*ast.BasicLit); ok {
+				rt, _ := strconv.Unquote(b.Value)
+				refTypes = append(refTypes, rt)
+			}
+		}
+	}
+	sort.Strings(refTypes)
+	l.def("vciRefTypes", "List String", leanStrList(refTypes), refTypes)
+	for _, pkg := range []*c05Pkg{iam, vci} {
+		for _, f := range pkg.files {
+			ast.Inspect(f, func(n ast.Node) bool {
+				c, ok := n.(*ast.CallExpr)
+				if !ok {
+					return true
+				}
+				sel, ok := c.Fun.(*ast.SelectorExpr)
+				if !ok || sel.Sel.Name != "GetStore" || len(c.Args) < 2 {
+					return true
+				}
+				var variants [][]string
+				pre, ok := pkg.strList(c.Args[1:])
+				if ok {
+					variants = [][]string{pre}
+				} else {
+					// a non-constant segment: the reference type of the OpenID4VCI stores ranges over the *RefType constants
+					for _, rt := range refTypes {
+						var v []string
+						good := true
+						for _, a := range c.Args[1:] {
+							if one, ok := pkg.strList([]ast.Expr{a}); ok {
+								v = append(v, one...)
+							} else if exprString(a) == "refType" {
+								v = append(v, rt)
+							} else {
+								good = false
+							}
+						}
+						if good {
+							variants = append(variants, v)
+						}
+					}
+					if len(variants) == 0 {
+						variants = [][]string{{"UNRESOLVED:" + c05Expr(c)}}
+					}
+				}
+				for _, v := range variants {
+					k := strings.Join(v, "\x00")
+					if !seenPrefix[k] {
+						seenPrefix[k] = true
+						allPrefixes = append(allPrefixes, v)
+					}
+				}
+				return true
+			})
+		}
+	}
+	sort.Slice(allPrefixes, func(i, j int) bool { return strings.Join(allPrefixes[i], "/") < strings.Join(allPrefixes[j], "/") })
+	var pl []string
+	for _, v := range allPrefixes {
+		pl = append(pl, leanStrList(v))
+	}
+	l.def("allStorePrefixes", "List (List String)", "["+strings.Join(pl, ", ")+"]", allPrefixes)
+	chars := func(sep string) string {
+		var paths []string
+		for _, v := range allPrefixes {
+			var cs []string
+			for _, r := range strings.Join(v, sep) + sep {
+				cs = append(cs, fmt.Sprintf("Char.ofNat %d", r))
+			}
+			paths = append(paths, "["+strings.Join(cs, ", ")+"]")
+		}
+		return "[" + strings.Join(paths, ",\n  ") + "]"
+	}
+	memSep, _ := l.facts["memKeySep"].(string)
+	redisSep, _ := l.facts["redisKeySep"].(string)
+	l.def("storePathsMem", "List (List Char)", chars(memSep), "chars of strings.Join(prefix, memKeySep)+memKeySep per store")
+	l.def("storePathsRedis", "List (List Char)", chars(redisSep), "chars of strings.Join(prefix, redisKeySep)+redisKeySep per store")
 
 	ver := c05Load("vcr/verifier")
 	if v, ok := ver.consts["maxSkew"]; ok {
